@@ -12,6 +12,7 @@ S_COMMON = [
 
 from .continuum import F as CT
 from .alignment import F as AL
+from .sampler import F as SP
 
 CONT_OBSERVERS = [CT + "Continuum." + m for m in ("annotators", "__bool__", "num_annotators", "num_units",
                                                   "avg_num_annotations_per_annotator", "categories")]
@@ -84,6 +85,20 @@ PROPS = {
                             "proved (lemmas unit_order_* + Unit.__lt__ == documented order)", "model: copy.deepcopy",
                             "model: pyannote Segment (duration / bool with SEGMENT_PRECISION)", "model: python aggregates over generator expressions",
                             "S6 dataclass equality"],
+    ),
+    "C16": dict(
+        functions=[SP + "ShuffleContinuumSampler._remove_pivot_segment"] + [CT + "Continuum." + m for m in (
+            "copy_flush", "add", "add_annotator", "iter_annotator", "bounds", "__bool__")] + [CT + "Unit.__lt__"],
+        oracles=[SP + "ShuffleContinuumSampler.sample_from_continuum"],
+        bounded=[dict(oracle=SP + "ShuffleContinuumSampler.sample_from_continuum",
+                      what="sample_from_continuum / _random_from_segments are not under contract yet: seeded draws from random grid continua "
+                           "(2..5 annotators, ground-truth subsets, both pivot types) with the pivots recorded from the harness: every sampled "
+                           "annotator is the wrapped translation of one ground-truth annotator by its pivot, pivots within bounds, whole "
+                           "numbers in int mode, pairwise >= avg unit length / 2 apart; reference unchanged")],
+        design_ref="DESIGN.md section 4 C16, appendix A.5",
+        not_decided=["uniformity of the pivots (statistical)", "the translation / wrap clauses W1-W3 are bounded only (oracle); W4 rests on the "
+                     "proved contract of _remove_pivot_segment (coverage = input minus the open zone, for all reals)"],
+        trusted=S_COMMON + ["model: python lists (append / pop)", "model: pyannote Segment", "np.random support (oracle side only)"],
     ),
     "C07": dict(
         functions=[NU + "iter_tuples", NU + "extend_right_alignments", NU + "extend_right_disorders",
